@@ -36,10 +36,36 @@ def opChiral (args : List String) : String :=
     | none => "bad-op"
   | _ => "bad-op"
 
+/-- `prim <letter> <mapping> <cell: 9 rationals> <frac: 3 rationals per atom>` -/
+def opPrim (args : List String) : String :=
+  open Matid.Primitive Matid.Chirality in
+  match args with
+  | [letter, mapS, cellS, fracS] =>
+    match parseList? parseNat? mapS, parseList? parseRat? cellS, parseList? parseRat? fracS with
+    | some mapping, some [a1, a2, a3, b1, b2, b3, c1, c2, c3], some fr =>
+      if fr.length != 3 * mapping.length then "bad-op" else
+      let code := (letter.toList.headD 'P').toNat
+      let idxs := (npUniqueFirst (mapping.zipIdx)).map (·.2)
+      if code == 80 then
+        "P idx=" ++ showList toString (List.range mapping.length)
+      else match MatidGen.Centring.letters.find? (fun p => p.1 == code) with
+        | none => "KeyError"
+        | some (_, six) =>
+          let t := MatidGen.Centring.usesTranspose
+          let (pa, pb, pc) := primCell six t (a1, a2, a3) (b1, b2, b3) (c1, c2, c3)
+          let cellOut := [pa.1, pa.2.1, pa.2.2, pb.1, pb.2.1, pb.2.2, pc.1, pc.2.1, pc.2.2]
+          let fracs := idxs.flatMap fun i =>
+            let f := primFrac six t (fr.getD (3 * i) 0, fr.getD (3 * i + 1) 0, fr.getD (3 * i + 2) 0)
+            [f.1, f.2.1, f.2.2]
+          "idx=" ++ showList toString idxs ++ " cell=" ++ showList showRat cellOut ++ " frac=" ++ showList showRat fracs
+    | _, _, _ => "bad-op"
+  | _ => "bad-op"
+
 def step (line : String) : String :=
   match words line with
   | "radii" :: args => opRadii args
   | "chiral" :: args => opChiral args
+  | "prim" :: args => opPrim args
   | _ => "bad-op"
 
 partial def loop (h : IO.FS.Stream) (out : IO.FS.Stream) : IO Unit := do
